@@ -40,13 +40,13 @@ def run(ctx):
         ctx.ob('1b sync-assumption-anchored', 'anchor', fo.path, 'a branch on Log.sync exists to prune (assumption sync_wal=true is meaningful)',
                bool(sync_true), 'no switch on a copy of Log.sync found in flush_one')
         push_sites = [bi for b, bi in pushers if b is fo]
-        syncs = fo.call_sites(SYNC_DATA, SYNC_ALL)
+        syncs = lib.must_sites(fo, [SYNC_DATA, SYNC_ALL])
         lib.precedes(ctx, '1c sync-before-handover', fo, syncs, push_sites,
                      'with sync_wal on, every path to the hand-over push passes File::sync_data', removed_edges=sync_true)
         for ps in push_sites:
             lib.result_guards(ctx, '1d handover-only-if-sync-ok', fo, syncs, ps,
                               'the hand-over runs only on the Ok outcome of sync_data (error -> no hand-over)') if syncs else None
-        inner = fo.call_sites('std::io::BufWriter::<W>::into_inner', 're:BufWriter.*::flush$', 're:Write>::flush$')
+        inner = lib.must_sites(fo, ['std::io::BufWriter::<W>::into_inner', 're:BufWriter.*::flush$', 're:Write>::flush$'])
         lib.precedes(ctx, '1e bufwriter-flushed-before-sync', fo, inner, syncs,
                      'buffered log bytes are written (BufWriter::into_inner/flush) before sync_data', removed_edges=sync_true)
     poppers = lib.calls_on_field(F, [POP_FRONT, 're:VecDeque.*::(pop_back|drain|remove|swap_remove_.*|split_off|clear|truncate)$', 'std::mem::take', 'std::mem::replace'], '.Log.read_queue')
